@@ -48,8 +48,18 @@ def run_one(chk, sc, cfgseed, how):
     v = None
     try:
         os.chdir(dirs[sc["start"]])
+        from harness import alpha as _alpha
+        names_ = list(dirs)
+        untouched = {dn: _alpha.tree_digest(os.path.join(dirs[dn], NAME)) for dn in names_}
         with shims.pool_shim(shims.Scheduler(default="random", rng=rng)), core.quiet():
             for n, op in enumerate(sc["ops"]):
+                if n and v is None:
+                    # nothing an earlier step did may have touched the plotfile of ANY directory (inputs are never written)
+                    for dn_ in names_:
+                        if _alpha.tree_digest(os.path.join(dirs[dn_], NAME)) != untouched[dn_]:
+                            v = "after step %d of a history over several working directories the plotfile run_%s/%s is no longer what it was" % (n, dn_, NAME)
+                    if v:
+                        break
                 if op["op"] == "cd":
                     os.chdir(dirs[op["asked"]])
                     continue
@@ -305,8 +315,17 @@ def run_tool_history(chk, sc, cfgseed, tool):
         if len({core.jdump(r) for r in refs.values()}) < len(refs):
             raise core.MachineryError("the directories' plotfiles do not give distinct results for %s" % tool)
         os.chdir(dirs[sc["start"]])
+        from harness import alpha as _alpha
+        untouched = {dn: _alpha.tree_digest(os.path.join(dirs[dn], NAME)) for dn in names}
         with shims.pool_shim(shims.Scheduler(default="random", rng=rng)), core.quiet():
             for n, op in enumerate(sc["ops"]):
+                if n and v is None:
+                    # nothing an earlier step did may have touched the plotfile of ANY directory (inputs are never written)
+                    for dn_ in names:
+                        if _alpha.tree_digest(os.path.join(dirs[dn_], NAME)) != untouched[dn_]:
+                            v = "after step %d (%s in a history over several working directories) the input run_%s/%s is no longer what it was" % (n, tool, dn_, NAME)
+                    if v:
+                        break
                 if op["op"] == "cd":
                     os.chdir(dirs[op["asked"]])
                     continue
